@@ -12,6 +12,7 @@ from . import common
 from .common import ROOT, log
 
 import world_gen as wg
+import store_gen as sg
 
 # ------------------------------------------------------------------ property table
 
@@ -38,6 +39,20 @@ PROPS = {
                   "C02_faithful_refines_spec"],
         required="spec",
         nontrivial="history contains a deletion and at least one probe reporting a dead handle",
+    ),
+    "C03": dict(
+        domain="world", module="Props.C03",
+        theorems=["C03_dead_handle_is_absent", "C03_stale_forever"],
+        required="spec",
+        nontrivial="a storage access goes through a handle whose index has been taken over by a later entity",
+    ),
+    "C04": dict(
+        domain="world", module="Props.C04",
+        theorems=["C04_raw_get", "C04_raw_insert", "C04_raw_write", "C04_raw_remove", "C04_raw_clean",
+                  "C04_slice_vec", "C04_slice_default", "C04_slice_dense", "C04_api_same_on_all_kinds",
+                  "C04_world_same_as_plain_map", "C04_faithful_same_as_plain_map", "C04_never_stuck"],
+        required="faithful",
+        nontrivial="at least one removal and one re-insertion or overwrite on a storage holding two or more components",
     ),
     "C17": dict(
         domain="world", module="Props.C17",
@@ -206,6 +221,14 @@ def world_violation(pid, r):
     if pid == "C17":
         if code == 3:
             return "a never-used index was taken while a dead entity's index was free (op %d)" % pos
+    stale = bool(r["extra"][0]) if r.get("extra") else False
+    is_store = op is not None and 30 <= op <= 42
+    if pid == "C03":
+        if code in (1, 4) and is_store and stale:
+            return "an access through a dead handle did not behave as absent (op %d: %s)" % (pos, wg.NAMES.get(op, op))
+    if pid == "C04":
+        if code == 1 and is_store and not stale:
+            return "a storage operation returned something else than the plain map (op %d: %s)" % (pos, wg.NAMES.get(op, op))
     return None
 
 
@@ -221,13 +244,65 @@ def nontrivial_world(pid, r):
     if pid == "C17":
         failing = any(o and o[0] == 2 and o[1] == 1 for o in r["impl"])
         return reuse or failing
+    if pid == "C03":
+        # handles in order of return, with their indices
+        hs = []
+        born = []
+        for k, o in enumerate(r["impl"]):
+            if o and o[0] == 1 and r["hist"][k][0] in CREATION:
+                for i in o[2::2]:
+                    hs.append(i)
+                    born.append(k)
+        for k, (c, p) in enumerate(r["hist"]):
+            if 30 <= c <= 42 and c not in (35, 36, 37, 38, 39, 40) and len(p) >= 2 and 0 <= p[1] < len(hs):
+                h = p[1]
+                if any(hs[j] == hs[h] and j > h and born[j] < k for j in range(len(hs))):
+                    return True
+        return False
+    if pid == "C04":
+        return (sg.REM in codes or sg.DRN in codes) and sg.INS in codes
     return True
+
+
+def gen_store(pid, tier, seed, scale, rng, hists, stats):
+    q = tier == "quick"
+    if pid == "C03":
+        for _ in range((400 if q else 4000) * scale):
+            hists.append(sg.stale_history(rng))
+            stats["stale-handle probe matrices"] += 1
+        for _ in range((150 if q else 1500) * scale):
+            hists.append(sg.random_store_history(rng, rng.randint(10, 60)))
+            stats["random storage histories"] += 1
+    if pid == "C04":
+        for sid in range(16):
+            for _ in range((40 if q else 400) * scale):
+                hists.append(sg.map_history(rng, rng.randint(10, 70 if q else 200), [sid]))
+                stats["per-kind map histories"] += 1
+        for _ in range((300 if q else 3000) * scale):
+            hists.append(sg.map_history(rng, rng.randint(10, 80)))
+            stats["mixed-kind map histories"] += 1
+        for _ in range((200 if q else 2000) * scale):
+            hists.append(sg.random_store_history(rng, rng.randint(10, 60)))
+            stats["random storage histories"] += 1
+
+
+STORE_PROPS = ("C03", "C04", "C05", "C08", "C12")
 
 
 def gen_world(pid, tier, seed, scale=1):
     rng = random.Random(seed * 1000003 + sum(map(ord, pid)))
     hists = []
     stats = collections.Counter()
+    if pid in STORE_PROPS:
+        cdir = os.path.join(ROOT, "gen", "corpus", pid)
+        if os.path.isdir(cdir):
+            for f in sorted(os.listdir(cdir)):
+                for line in open(os.path.join(cdir, f)):
+                    if line.strip():
+                        hists.append(wg.decode(line))
+                        stats["corpus"] += 1
+        gen_store(pid, tier, seed, scale, rng, hists, stats)
+        return hists, stats
     # 1. corpus of minimised failures first
     cdir = os.path.join(ROOT, "gen", "corpus", pid)
     if os.path.isdir(cdir):
@@ -334,7 +409,9 @@ def check_world(pid, tier, seed):
         elif not r["eq"]:
             diverged.append(r)
     # expected buckets: a dead generator must not go unnoticed
-    for need in ("Create", "DeleteMany", "EDelete", "Maintain", "ProbeAll", "ECreate"):
+    needs = {"C03": ("Create", "Delete", "Insert", "Get", "GetMut", "Remove", "Entry", "GetMutOrDefault", "Contains"),
+             "C04": ("Insert", "Get", "GetMut", "Remove", "Entry", "Drain", "Clear", "Slice", "Mask", "Count")}
+    for need in needs.get(pid, ("Create", "DeleteMany", "EDelete", "Maintain", "ProbeAll", "ECreate")):
         if ophist[need] == 0:
             proof["failures"].append("generator bucket empty: " + need)
 
